@@ -2,7 +2,7 @@
 convention, payload provenance, routing duality (properties C07, C11-C15, C19, C28, parts of C01)."""
 import ast
 
-from .core import AnalysisError, iter_nodes, norm
+from .core import AnalysisError, iter_nodes, norm, cnorm
 from . import astq
 from .astq import (parents, ancestors, calls_named, mentions_attr, mentions_name, definitions, reaching_definitions,
                    enclosing_loops, enclosing_ifs, const_int, attr_tail, resolve_value)
@@ -222,26 +222,42 @@ def rule_SS3(ctx, rep):
                 'drawn from the CSPRNG', fn.node)
         return
     d = draws[0]
-    comp = [a for a in ancestors(d, pm) if isinstance(a, (ast.ListComp, ast.GeneratorExp))]
-    if not comp or comp[0].elt is not d:
+    from . import routes
+    binders, guards = routes._context(fn, d, pm)
+    par = pm.get(id(d))
+    cname, coll_node = None, None
+    if isinstance(par, (ast.ListComp, ast.GeneratorExp)) and par.elt is d:
+        p2 = pm.get(id(par))
+        while isinstance(p2, ast.Call) and isinstance(p2.func, ast.Name) and p2.func.id in ('list', 'tuple'):
+            p2 = pm.get(id(p2))
+        if isinstance(p2, ast.Assign) and isinstance(p2.targets[0], ast.Name):
+            cname, coll_node = p2.targets[0].id, par
+    elif isinstance(par, ast.Call) and attr_tail(par.func) == 'append' and isinstance(par.func.value, ast.Name) and par.args and par.args[0] is d:
+        cname, coll_node = par.func.value.id, par
+    if cname is None:
         rep.bad('SS3', fn, d, 'a drawn value is post-processed before use as a coefficient (not uniform on the field)')
         return
-    comp = comp[0]
-    rb = _range_bounds(comp.generators[0].iter)
-    if rb and rb[0] == Lin(0) and rb[1] == Lin.sym(tp) - 1 and not comp.generators[0].ifs and len(comp.generators) == 1:
-        rep.ok('SS3', fn, comp, f'exactly {tp} random coefficients per secret')
+    inner = binders[-1] if binders else None
+    if inner is not None and inner.kind == 'range' and (inner.hi - inner.lo + 1) == Lin.sym(tp) and not any(
+            any(isinstance(x, ast.Name) and x.id == inner.var for x in ast.walk(g[0])) for g in guards):
+        rep.ok('SS3', fn, coll_node, f'exactly {tp} random coefficients per secret')
     else:
-        rep.bad('SS3', fn, comp, f'the number of random coefficients per secret is not the degree parameter {tp}: the sharing polynomial has the wrong degree')
-    bound = resolve_value(fn.node, d.args[0])
+        rep.bad('SS3', fn, coll_node, f'the number of random coefficients per secret is not the degree parameter {tp}: the sharing polynomial has the wrong degree')
+    bound = routes.xp(fn, d.args[0], d, pm)
     if norm(bound) == f'{fieldp}.order':
         rep.ok('SS3', fn, d, 'each coefficient is uniform on the whole field (randbelow(field.order))')
     else:
         rep.bad('SS3', fn, d, f'coefficients are drawn below {norm(bound)}, not below the field order: shares are not uniform')
-    # fresh per secret: the draw is inside the loop over the secrets
+    # fresh per secret: the draw (and the start of its collection) is inside the loop over the secrets
     st = astq.enclosing_stmt(d, pm)
-    cname = st.targets[0].id if isinstance(st, ast.Assign) and isinstance(st.targets[0], ast.Name) else None
-    sloops = [l for l in enclosing_loops(st, pm, stop=fn.node) if isinstance(l, ast.For) and mentions_name(l.iter, sp)]
-    if sloops:
+    sb = [b for b in binders[:-1] if b.kind in ('enum', 'iter') and b.src is not None and mentions_name(b.src, sp)]
+    sloops = [b.node for b in sb]
+    fresh = bool(sb)
+    if fresh and isinstance(par, ast.Call):
+        # for/append form: the list must be re-initialised inside the secrets loop as well
+        inits = [st_ for st_, v, how in definitions(fn.node, cname) if isinstance(v, ast.List) and not v.elts]
+        fresh = any(any(x is st_ for x in ast.walk(sb[-1].node)) for st_ in inits)
+    if fresh:
         rep.ok('SS3', fn, st, 'coefficients are drawn afresh for every secret')
     else:
         rep.bad('SS3', fn, st, 'the random coefficients are not drawn inside the loop over the secrets: all secrets of a batch share one '
@@ -334,25 +350,25 @@ def rule_SS3(ctx, rep):
         rep.bad('SS3', fn, pl, 'after the Horner loop the secret is not added as constant term / the share is not stored in row x-1')
     # numpy variant
     nf = model.func('thresha::np_random_split')
+    pmn = parents(nf.node)
     nps = nf.params
     nfield, nsp, ntp, nmp = nps[:4]
     fi = calls_named(nf.node, 'fromiter')
     okn = False
+
+    def xn(e, use):
+        return cnorm(routes.xp(nf, e, use, pmn))
+    want_cnt = {cnorm(ast.parse(f'{ntp} * len({nsp})', mode='eval').body)}
     if len(fi) == 1:
         gen = fi[0].args[0] if fi[0].args else None
         if isinstance(gen, ast.GeneratorExp) and isinstance(gen.elt, ast.Call) and len(gen.generators) == 1 and not gen.generators[0].ifs:
-            callee = resolve_value(nf.node, gen.elt.func) if isinstance(gen.elt.func, ast.Name) else gen.elt.func
-            bound = resolve_value(nf.node, gen.elt.args[0]) if gen.elt.args else None
-            nlen = [st.targets[0].id for st in iter_nodes(nf.node) if isinstance(st, ast.Assign) and isinstance(st.value, ast.Call)
-                    and attr_tail(st.value.func) == 'len' and isinstance(st.targets[0], ast.Name)]
+            callee = routes.xp(nf, gen.elt.func, fi[0], pmn)
+            bound = routes.xp(nf, gen.elt.args[0], fi[0], pmn) if gen.elt.args else None
             it = gen.generators[0].iter
             cnt = [k.value for k in fi[0].keywords if k.arg == 'count']
-            if isinstance(it, ast.Call) and attr_tail(it.func) == 'range' and len(it.args) == 1 and nlen:
-                prod = it.args[0]
-                isprod = isinstance(prod, ast.BinOp) and isinstance(prod.op, ast.Mult) and \
-                    sorted([norm(prod.left), norm(prod.right)]) == sorted([ntp, nlen[0]])
-                if norm(callee) == 'secrets.randbelow' and bound is not None and norm(bound) == f'{nfield}.order' and isprod \
-                        and cnt and norm(cnt[0]) == norm(prod):
+            if isinstance(it, ast.Call) and attr_tail(it.func) == 'range' and len(it.args) == 1:
+                if norm(callee) == 'secrets.randbelow' and bound is not None and norm(bound) == f'{nfield}.order' and xn(it.args[0], fi[0]) in want_cnt \
+                        and cnt and xn(cnt[0], fi[0]) == xn(it.args[0], fi[0]):
                     okn = True
     if okn:
         rep.ok('SS3', nf, fi[0], f'{ntp}*n CSPRNG coefficients uniform on the field')
@@ -365,23 +381,24 @@ def rule_SS3(ctx, rep):
     okv = False
     if len(vd) == 1:
         kw = {k.arg: k.value for k in vd[0].keywords}
-        Nl = to_lin(kw['N'], opaque=False) if 'N' in kw else None
+        Nl = to_lin(routes.xp(nf, kw['N'], vd[0], pmn), opaque=False) if 'N' in kw else None
         inc = kw.get('increasing')
-        pts = [r for r in ast.walk(vd[0].args[0]) if isinstance(r, ast.Call) and _range_bounds(r)]
-        okv = Nl is not None and Nl == Lin.sym(ntp) + 1 and isinstance(inc, ast.Constant) and inc.value is True and len(pts) == 1 \
-            and _range_bounds(pts[0])[0] == Lin(1) and _range_bounds(pts[0])[1] == Lin.sym(nmp)
-    if okv:
-        # evaluation points must be of the modulus' type (int or polynomial), as in the list variant where
-        # `(y + c) * i1` is carried out in the modulus' arithmetic
-        elts = [c for c in ast.walk(vd[0].args[0]) if isinstance(c, ast.ListComp)]
-        coerced = False
-        if elts and isinstance(elts[0].elt, ast.Call) and isinstance(elts[0].elt.func, ast.Name):
-            tpv = resolve_value(nf.node, elts[0].elt.func)
-            pv = [st for st in iter_nodes(nf.node) if isinstance(st, ast.Assign) and norm(st.value) == f'{nfield}.modulus']
-            coerced = isinstance(tpv, ast.Call) and attr_tail(tpv.func) == 'type' and pv and norm(tpv.args[0]) == norm(pv[0].targets[0]) \
-                and norm(elts[0].elt.args[0]) == norm(elts[0].generators[0].target)
-        if not coerced:
-            okv = False
+        base = routes.xp(nf, vd[0].args[0], vd[0], pmn)
+        elts = [c for c in ast.walk(base) if isinstance(c, ast.ListComp)]
+        pts_ok = coerced = False
+        if len(elts) == 1 and len(elts[0].generators) == 1 and not elts[0].generators[0].ifs and isinstance(elts[0].elt, ast.Call) and len(elts[0].elt.args) == 1:
+            g = elts[0].generators[0]
+            rb = _range_bounds(g.iter)
+            al = to_lin(elts[0].elt.args[0], opaque=False)
+            iv = norm(g.target)
+            if rb and al is not None and al.coef(iv) == 1:
+                lo, hi = _subst(al, iv, rb[0]), _subst(al, iv, rb[1])
+                pts_ok = lo == Lin(1) and hi == Lin.sym(nmp)
+            # evaluation points must be of the modulus' type (int or polynomial), as in the list variant where
+            # `(y + c) * i1` is carried out in the modulus' arithmetic
+            tpv = routes.xp(nf, elts[0].elt.func, vd[0], pmn)
+            coerced = isinstance(tpv, ast.Call) and attr_tail(tpv.func) == 'type' and len(tpv.args) == 1 and norm(routes.xp(nf, tpv.args[0], vd[0], pmn)) == f'{nfield}.modulus'
+        okv = Nl is not None and Nl == Lin.sym(ntp) + 1 and isinstance(inc, ast.Constant) and inc.value is True and pts_ok and coerced
     if okv:
         rep.ok('SS3', nf, vd[0], 'Vandermonde matrix of points 1..m (in the modulus\' arithmetic) with powers 0..t (increasing)')
     else:
@@ -462,15 +479,22 @@ def rule_SS4(ctx, rep, scope=None):
             rep.bad('SS4', fg, fg.qualname, 'recombination vector call not found', fg.node)
             continue
         c = rv[0]
-        rb = _range_bounds(c.args[1]) if len(c.args) > 1 else None
-        mv = None
-        for s in iter_nodes(fg.node):
-            if isinstance(s, ast.Assign) and isinstance(s.value, ast.Call) and attr_tail(s.value.func) == 'len' and mentions_attr(s.value, 'parties'):
-                mv = s.targets[0].id
+        from . import routes
         pmg = parents(fg.node)
-        sub = pmg.get(id(c))
-        idx_ok = isinstance(sub, ast.Subscript) and sub.value is c and norm(sub.slice) in ('runtime.pid', 'self.pid')
-        if rb and mv and rb[0] == Lin(1) and rb[1] == Lin.sym(mv) and const_int(c.args[2]) == 0 and idx_ok:
+        from . import sem
+        rb = _range_bounds(sem.symx(routes.xp(fg, c.args[1], c, pmg)), {}) if len(c.args) > 1 else None
+        mv = None
+        for s_ in iter_nodes(fg.node):
+            if isinstance(s_, ast.Assign) and isinstance(s_.value, ast.Call) and attr_tail(s_.value.func) == 'len' and mentions_attr(s_.value, 'parties'):
+                mv = s_.targets[0].id
+        # the entry of the vector that is used: <vector>[pid], directly or through a temporary holding the vector
+        idx_ok = False
+        for sub in iter_nodes(fg.node):
+            if isinstance(sub, ast.Subscript) and norm(sub.slice) in ('runtime.pid', 'self.pid'):
+                v = sub.value
+                if v is c or (isinstance(v, ast.Name) and routes.xp(fg, v, sub, pmg) is not None and norm(routes.xp(fg, v, sub, pmg)) == norm(routes.xp(fg, c, c, pmg))):
+                    idx_ok = True
+        if rb and rb[0] == Lin(1) and rb[1] == Lin.sym('M') and const_int(c.args[2]) == 0 and idx_ok:
             rep.ok('SS4', fg, c, 'Lagrange coefficients for points 1..m at 0; this party takes entry [pid] (its point pid+1)')
         else:
             rep.bad('SS4', fg, c, 'the Lagrange coefficient used for the local share is not the one of point pid+1 among 1..m at 0: the parties\' '
@@ -483,47 +507,25 @@ def rule_SS4(ctx, rep, scope=None):
 
 # ---------------------------------------------------------------------------------- SS5
 def rule_SS5(ctx, rep):
-    """dealt payload provenance: dealing coroutines send nothing but rows of a fresh split."""
-    model = ctx.model
+    """dealt payload provenance: dealing coroutines send nothing but (marshalled) rows of a fresh split -- decided on the routing
+    summaries: the payload of every send derives only from the row that is enumerated together with the destination."""
+    from . import rules_rt, routes
     n = 0
     for q in ('_distribute', '_reshare'):
-        fn = model.func(RT + q)
+        fn, evs, cases = rules_rt._summary(ctx, q)
         pm = parents(fn.node)
-        tainted = set()   # names holding split output or parts of it
-        for s in iter_nodes(fn.node):
-            if isinstance(s, ast.Assign) and isinstance(s.value, ast.Call) and \
-                    any('random_split' in t.key for t in ctx.flow.rs.resolve_call(fn, s.value)):
-                tainted |= set(astq.assigned_names(s.targets[0]))
-        changed = True
-        while changed:
-            changed = False
-            for l in iter_nodes(fn.node):
-                if isinstance(l, ast.For):
-                    src = l.iter.args[0] if isinstance(l.iter, ast.Call) and attr_tail(l.iter.func) == 'enumerate' and l.iter.args else l.iter
-                    if isinstance(src, ast.Name) and src.id in tainted and isinstance(l.target, ast.Tuple):
-                        nm = norm(l.target.elts[-1])
-                        if nm not in tainted:
-                            tainted.add(nm)
-                            changed = True
-                if isinstance(l, ast.Assign) and isinstance(l.targets[0], ast.Name) and isinstance(l.value, ast.Call) \
-                        and attr_tail(l.value.func) in ('marshal',) and l.value.args and isinstance(l.value.args[0], ast.Name) \
-                        and l.value.args[0].id in tainted and l.targets[0].id not in tainted:
-                    tainted.add(l.targets[0].id)
-                    changed = True
-        for c in calls_named(fn.node, '_send_message'):
+        for e in evs:
+            if e.kind != 'send':
+                continue
             n += 1
-            d = c.args[1]
-            names = {x.id for x in ast.walk(d) if isinstance(x, ast.Name)} - {'marshal'}
-            if names and names <= tainted:
-                # the tainted payload variable must not be re-bound to something else in between
-                rebound = [st for nm in names for st, v, how in definitions(fn.node, nm)
-                           if how == 'assign' and not (isinstance(v, ast.Call) and (attr_tail(v.func) == 'marshal' or any('random_split' in t.key for t in ctx.flow.rs.resolve_call(fn, v))))]
-                if rebound:
-                    rep.bad('SS5', fn, c, f'payload variable is also assigned from {norm(rebound[0].value)}: a message can carry something other than a fresh share')
-                else:
-                    rep.ok('SS5', fn, c, 'payload is a (marshalled) row of the fresh random split')
+            b = routes._find_binder(e, e.peer_raw.id) if isinstance(e.peer_raw, ast.Name) else None
+            if b is None or b.kind != 'enum' or not routes._resolves_to_split(ctx, fn, b.src, b.node, pm) or e.payload is None:
+                rep.bad('SS5', fn, e.node, f'payload {norm(e.payload) if e.payload is not None else "?"} is not sent inside the enumeration of a fresh random split')
+                continue
+            if rules_rt._derives_only_from(fn, e.payload, e.node, pm, b.elem):
+                rep.ok('SS5', fn, e.node, 'payload is a (marshalled) row of the fresh random split')
             else:
-                rep.bad('SS5', fn, c, f'payload {norm(d)} does not derive (only) from the output of random_split: a secret or a share of it may be sent in the clear')
+                rep.bad('SS5', fn, e.node, f'payload {norm(e.payload)} does not derive (only) from the output of random_split: a secret or a share of it may be sent in the clear')
     if n < 2:
         raise AnalysisError('SS5: dealing sends not found')
 
@@ -730,6 +732,25 @@ def rule_SS7(ctx, rep):
 
 
 # ---------------------------------------------------------------------------------- PR1
+def _xp_arith(fn, e, use, pm, depth=0):
+    """e with temporaries expanded whose (single reaching) definition is pure integer arithmetic over names (`offset = h * d`);
+    names defined through calls or attributes (`d = m - len(S)`) stay symbolic."""
+    import copy
+
+    class X(ast.NodeTransformer):
+        def visit_Name(self, n):
+            if not isinstance(n.ctx, ast.Load) or depth > 4:
+                return n
+            ds = reaching_definitions(fn.node, n.id, use, pm)
+            if len(ds) == 1 and ds[0][2] == 'assign' and ds[0][1] is not None:
+                v = ds[0][1]
+                if all(isinstance(x, (ast.BinOp, ast.Name, ast.Constant, ast.operator, ast.expr_context, ast.UnaryOp, ast.unaryop)) for x in ast.walk(v)) \
+                        and not any(isinstance(x, ast.Name) and x.id == n.id for x in ast.walk(v)) and not isinstance(v, (ast.Name, ast.Constant)):
+                    return _xp_arith(fn, v, ds[0][0], pm, depth + 1)
+            return n
+    return X().visit(copy.deepcopy(e))
+
+
 def rule_PR1(ctx, rep):
     """PRSS structure: every subset PRF contributes prf_S(uci) * f_S(i); zero-sharings use d = m - |S| = t
     fresh values per secret as coefficients of x^1..x^d; list and array variants agree."""
@@ -788,8 +809,9 @@ def rule_PR1(ctx, rep):
         it = hl[0].iter
         rb = None
         if isinstance(it, ast.Call) and len(it.args) in (1, 2):
-            los = to_lin(it.args[0], opaque=True) if len(it.args) == 2 else Lin(0)
-            his = to_lin(it.args[-1], opaque=True)
+            from . import routes
+            los = to_lin(_xp_arith(f0, it.args[0], hl[0], pm), opaque=True) if len(it.args) == 2 else Lin(0)
+            his = to_lin(_xp_arith(f0, it.args[-1], hl[0], pm), opaque=True)
             if los is not None and his is not None:
                 rb = (los, his - 1)
         jv = norm(hl[0].target)
@@ -803,7 +825,7 @@ def rule_PR1(ctx, rep):
                 hloop = [l for l in enclosing_loops(hl[0], pm, stop=f0.node) if isinstance(l, ast.For)]
                 if idx and hloop:
                     hv = norm(hloop[0].target)
-                    il = to_lin(idx[0].slice, opaque=True)
+                    il = to_lin(_xp_arith(f0, idx[0].slice, st, pm), opaque=True)
                     if il is not None and il.coef(jv) == 1:
                         # the indices visited for secret h are exactly h*d .. h*d + d - 1
                         first = _subst(il, jv, rb[0])
@@ -834,10 +856,30 @@ def rule_PR1(ctx, rep):
 # ---------------------------------------------------------------------------------- MK6
 def rule_MK6(ctx, rep):
     """transfer along a graph: messages follow the arcs in their direction -- the parties a message is sent to are the heads of
-    the arcs leaving this party, in both representations of the arc set (a party that is not a designated receiver gets nothing)."""
-    fn = ctx.model.func('runtime::Runtime.transfer')
-    ms = [v for _, v, _ in definitions(fn.node, 'my_senders')]
-    mr = [v for _, v, _ in definitions(fn.node, 'my_receivers')]
-    if not ms or not mr:
-        raise AnalysisError('MK6: my_senders / my_receivers not defined in runtime::Runtime.transfer')
-    _graph_roles(rep, 'MK6', fn, ms, mr)
+    the arcs leaving this party, and the parties received from are the tails of the arcs entering it, in both representations of the
+    arc set (read off the routing summaries: the names and the spelling of the lists do not matter)."""
+    from . import rules_rt
+    fn, evs, cases = rules_rt._summary(ctx, 'transfer')
+    n = 0
+    for k in sorted(cases):
+        for e in evs:
+            at = cases[k][id(e)]
+            arcs = [a for a in at if a[0] in ('Arc', 'Arc-reversed')]
+            unk = [a for a in at if a[0] == 'Unknown' and 'sender_receivers' in a[1]]
+            if not arcs and not unk:
+                continue
+            what = 'destinations' if e.kind == 'send' else 'sources'
+            label = ' and '.join(f'{t}:{br}' for t, br in k)
+            site = f'transfer ({arcs[0][2] if arcs else "graph"} form): {what} [{label}]'
+            if unk:
+                rep.skip('MK6', fn, site, 'expression over the arc set not in a recognised shape', e.node)
+                continue
+            n += 1
+            if arcs[0][0] == 'Arc':
+                rep.ok('MK6', fn, site, 'arcs (a, b) mean a sends to b; ' + ('messages go to the heads of the arcs leaving this party' if e.kind == 'send'
+                                                                              else 'messages are awaited from the tails of the arcs entering this party'), e.node)
+            else:
+                rep.bad('MK6', fn, site, f'the {what} are computed from the arc set with the roles of sender and receiver exchanged: every arc a->b is used as b->a, '
+                        'so messages go to parties that are not the designated receivers', e.node)
+    if n < 4:
+        rep.skip('MK6', fn, 'transfer (graph form)', f'only {n} of the 4 graph-form routing relations found', fn.node)
